@@ -165,15 +165,26 @@ Definition show_spec (r : option (gomap string)) : list string :=
 """
 _GOOS_GRID = """Definition envs := words_upto entries 2.
 Definition grid := pairs envs (pairs [""; "linux"] [""; "arm"]).
-Definition show_env (r : list string * option string) : list string := (if is_nil (snd r) then "ok" else "error") :: fst r.
+Definition show_env (r : list string * option string) : list string := (if is_nil (snd r) then "ok" else "error") :: sort_Strings (fst r).   (* the order of the list is Go's map order: compared as a multiset *)
 Definition D1 := diffs (list_eqb String.eqb) (fun x => [["EnvWithGOOS"]; fst x; [fst (snd x)]; [snd (snd x)]]) (fun r => r)
   (fun x => show_env (x_EnvWithGOOS (fun m => m) (fst x) "rtarch" "rtos" (fst (snd x)) (snd (snd x))))
-  (fun x => match env_split (fst x) [] with Some m => "ok" :: map join_kv (goos_env m "rtos" "rtarch" (fst (snd x)) (snd (snd x))) | None => ["error"] end) grid.
+  (fun x => match env_split (fst x) [] with Some m => "ok" :: sort_Strings (map join_kv (goos_env m "rtos" "rtarch" (fst (snd x)) (snd (snd x)))) | None => ["error"] end) grid.
 Definition D2 := diffs (list_eqb String.eqb) (fun x => [["EnvWithCurrentGOOS"]; fst x; [""]; [""]]) (fun r => r)
   (fun x => show_env (x_EnvWithCurrentGOOS (fun m => m) (fst x) "rtarch" "rtos"))
-  (fun x => match env_split (fst x) [] with Some m => "ok" :: map join_kv (goos_env m "rtos" "rtarch" "" "") | None => ["error"] end)
+  (fun x => match env_split (fst x) [] with Some m => "ok" :: sort_Strings (map join_kv (goos_env m "rtos" "rtarch" "" "")) | None => ["error"] end)
   (map (fun e => (e, ("", ""))) envs).
 Definition D := Eval vm_compute in firstn 3 (D1 ++ D2)%list.
+"""
+
+_DYN_GRID = """Definition codes := [0; 1; 2; 7; 255; -1]%Z.
+Definition grid : list dynerr := ([DNil; DOther] ++ map DExitStatus codes ++ map (fun c => DExitError true (Some c)) codes
+  ++ map (fun c => DExitError false (Some c)) codes ++ [DExitError true None; DExitError false None])%list.
+Definition show_dyn (e : dynerr) : list string :=
+  match e with
+  | DNil => ["nil"] | DOther => ["some other error"]
+  | DExitStatus c => ["has ExitStatus()"; show_Z c]
+  | DExitError x s => ["*exec.ExitError"; if x then "Exited" else "not Exited"; match s with Some c => show_Z c | None => "Sys() without ExitStatus()" end]
+  end.
 """
 
 # name: file, names given to the translator, Go functions whose text goes into a replay, Coq requires,
@@ -411,8 +422,8 @@ Qed.
         "search": _ENV_GRID + """Definition grid := words_upto entries 3.
 Definition D1 := diffs (list_eqb String.eqb) (fun env => [["SplitEnv"]; env]) (fun r => r)
   (fun env => show_split (x_SplitEnv env)) (fun env => show_spec (env_split env [])) grid.
-Definition D2 := diffs (list_eqb String.eqb) (fun env => [["joinEnv(SplitEnv), reversed order"]; env]) (fun r => r)
-  (fun env => x_joinEnv (@rev _) (fst (x_SplitEnv env))) (fun env => match env_split env [] with Some m => map join_kv (rev m) | None => [] end) grid.
+Definition D2 := diffs (list_eqb String.eqb) (fun env => [["joinEnv(SplitEnv), entries sorted for the comparison (the order of the result is Go's map order)"]; env]) (fun r => r)
+  (fun env => sort_Strings (x_joinEnv (@rev _) (fst (x_SplitEnv env)))) (fun env => match env_split env [] with Some m => sort_Strings (map join_kv m) | None => [] end) grid.
 Definition D := Eval vm_compute in firstn 3 (D1 ++ D2)%list.
 """,
         "args": ["op", "env"], "replay": None},
@@ -539,6 +550,170 @@ Definition grid := ["a"; ""; " a "; (nl ++ "a" ++ nl ++ "b" ++ nl)%string; ("a" 
 Definition D := Eval vm_compute in firstn 3 (diffs String.eqb (fun s => [[s]]) show_str x_toOneLine Classify.toOneLine grid).
 """,
         "args": ["s"], "replay": None},
+
+    # ---------------------------------------------------------------- third batch: cache name, exit statuses
+    "ExeName": {
+        "checks": ["C08"],
+        "file": "mage/main.go",
+        "names": "ExeName!$mageMainfileTplString!?hashFile!?internal.OutputDebug=string:string>string:error!?filepath.Join=string:string>string!runtime_GOOS",
+        "src": ["ExeName"],
+        "model": "Model/Cache.exe_name (C08): H (join (sort file hashes ++ [H template]) ++ key ++ go version); sha1 (%x), hashFile, `go version` (internal.OutputDebug), filepath.Join, the template text are parameters",
+        "requires": "From Mage Require Import Proof.GoLib_models.\nFrom Mage Require Model.Cache.\n",
+        "defs": """Definition exe_suffix (goos : string) : string := if String.eqb goos "windows" then ".exe" else "".
+""",
+        "theorems": ["x_ExeName_Cache", "x_ExeName_errors"],
+        "agree": """(* hashFile s = H (contents of s) for every file, `go version` prints ver: the name is the model's, joined to the cache directory *)
+Theorem x_ExeName_Cache : forall pjoin hf od H tpl goos goCmd cacheDir files content ver,
+  (forall s, In s files -> hf s = (H (content s), None)) ->
+  od goCmd "version" = (ver, None) ->
+  x_ExeName pjoin hf od H tpl goos goCmd cacheDir files =
+  ((pjoin cacheDir (Cache.exe_name H tpl ver (map (fun s => (s, content s)) files)) ++ exe_suffix goos)%string, None).
+Proof.
+  intros pjoin hf od H tpl goos goCmd cacheDir files content ver Hf Hv.
+  unfold x_ExeName. cbv zeta. try go_returned.
+  match goal with |- context [fold_left ?f files (?n, _)] =>
+    assert (G : forall fs (acc : list string), (forall s, In s fs -> hf s = (H (content s), None)) ->
+      fold_left f fs (n, acc) = (n, (acc ++ map (fun s => H (content s)) fs)%list))
+  end.
+  { induction fs as [|s fs IH]; intros acc Hs; cbn [fold_left map]; [now rewrite app_nil_r|].
+    rewrite (Hs s (or_introl eq_refl)). cbn [is_nil negb]. rewrite IH by (intros; apply Hs; now right).
+    now rewrite <- app_assoc. }
+  rewrite (G files [] Hf), ?Hv. cbn [is_nil negb app]. rewrite ?Hv. cbn [is_nil negb app].
+  unfold Cache.exe_name, Cache.exe_name_k, Cache.name_input, Cache.name_input_f, Cache.hash_list, Cache.file_hashes, Cache.magicRebuildKey, exe_suffix.
+  rewrite ?sort_Strings_Cache, ?strings_Join_Cache, map_map. cbn [snd]. rewrite ?sapp_assoc.
+  go_cases; rewrite ?sapp_nil_r; reflexivity.
+Qed.
+(* a file that cannot be hashed or a failing `go version` is an error *)
+Theorem x_ExeName_errors : forall pjoin hf od H tpl goos goCmd cacheDir files,
+  (Exists (fun s => snd (hf s) <> None) files \\/ snd (od goCmd "version") <> None) ->
+  snd (x_ExeName pjoin hf od H tpl goos goCmd cacheDir files) <> None.
+Proof.
+  intros pjoin hf od H tpl goos goCmd cacheDir files Hbad.
+  unfold x_ExeName. cbv zeta. go_returned.
+  match goal with |- context [fold_left ?f files (?n, _)] =>
+    assert (G : forall fs (acc : list string),
+      (exists r st, fold_left f fs (n, acc) = (Some r, st) /\\ snd r <> None) \\/
+      (~ Exists (fun s => snd (hf s) <> None) fs /\\ exists st, fold_left f fs (n, acc) = (n, st)))
+  end.
+  { induction fs as [|s fs IH]; intros acc; cbn [fold_left].
+    - right. split; [intros E; inversion E|eauto].
+    - destruct (hf s) as [h [e|]] eqn:Es; cbn [is_nil negb].
+      + left. rewrite Hret. eexists _, _. split; [reflexivity|]. cbn. discriminate.
+      + destruct (IH (acc ++ [h])%list) as [L|[N [st E]]]; [left; exact L|right]. split; [|eauto].
+        intros E'. inversion E'; subst; [rewrite Es in *; cbn in *; congruence|auto]. }
+  destruct (G files []) as [(r & st & -> & Hr)|[N [st ->]]]; [exact Hr|].
+  destruct Hbad as [B|B]; [contradiction|].
+  destruct (od goCmd "version") as [v [e|]]; cbn in *; [discriminate|congruence].
+Qed.
+""",
+        "search": """Definition H (s : string) : string := ("<" ++ s ++ ">")%string.
+Definition hf (s : string) : string * option string := if String.eqb s "bad" then ("", Some "unreadable") else (H ("contents of " ++ s), None).
+Definition od (cmd arg : string) : string * option string := if String.eqb cmd "nogo" then ("", Some "not found") else ((cmd ++ " " ++ arg ++ " go1.x")%string, None).
+Definition pjoin (a b : string) : string := (a ++ "/" ++ b)%string.
+Definition grid := pairs (words_upto ["b.go"; "a.go"; "c.go"; "bad"] 3) (pairs ["go"; "nogo"] ["linux"; "windows"]).
+Definition spec (x : list string * (string * string)) : list string :=
+  let '(files, (gocmd, goos)) := x in
+  if existsb (String.eqb "bad") files || String.eqb gocmd "nogo" then ["error"]
+  else ["ok"; (pjoin "CACHE" (Cache.exe_name H "TEMPLATE" (gocmd ++ " version go1.x") (map (fun s => (s, "contents of " ++ s)) files)) ++ exe_suffix goos)]%string.
+Definition show (r : string * option string) : list string := if is_nil (snd r) then ["ok"; fst r] else ["error"].
+Definition D := Eval vm_compute in firstn 3 (diffs (list_eqb String.eqb) (fun x => [fst x; [fst (snd x)]; [snd (snd x)]]) (fun r => r)
+  (fun x => show (x_ExeName pjoin hf od H "TEMPLATE" (snd (snd x)) (fst (snd x)) "CACHE" (fst x))) spec grid).
+""",
+        "args": ["files", "goCmd", "runtime.GOOS"], "replay": None},
+    "sh.ExitStatus": {
+        "checks": ["C15", "C05"],
+        "file": "sh/cmd.go", "names": "ExitStatus!dyn,CmdRan!dyn", "src": ["ExitStatus", "CmdRan"],
+        "model": "Model/Sh.sh_ExitStatus, Sh.sh_CmdRan (C15) and Model/ExitChain.sh_ExitStatus, sh_CmdRan (C05); errors as classes of dynamic types (Base/GoLib.dynerr)",
+        "requires": "From Mage Require Model.Sh Model.ExitChain.\n",
+        "defs": """Definition of_sh (e : Sh.err) : dynerr :=
+  match e with
+  | Sh.ENil => DNil
+  | Sh.EExitError w => DExitError (Sh.ws_exited w) (Some (Sh.ws_exitstatus w))   (* syscall.WaitStatus has ExitStatus() *)
+  | Sh.EFatal c => DExitStatus c
+  | Sh.EOther => DOther
+  end.
+(* the error c.Run() returns for what became of the child (Model/ExitChain.v) *)
+Definition of_child (c : ExitChain.child) : dynerr :=
+  if ExitChain.run_err_nil c then DNil
+  else match c with
+       | ExitChain.CExit n => DExitError true (Some (ExitChain.kernel n))
+       | ExitChain.CSignaled => DExitError false (Some (-1)%Z)
+       | ExitChain.CNotStarted => DOther
+       end.
+Definition sh_ExitStatus_spec (e : dynerr) : Z :=
+  match e with DNil => 0 | DExitStatus c => c | DExitError _ (Some c) => c | _ => 1 end%Z.
+Definition sh_CmdRan_spec (e : dynerr) : bool :=
+  match e with DNil => true | DExitError x _ => x | _ => false end.
+""",
+        "theorems": ["x_sh_ExitStatus_spec", "x_sh_CmdRan_spec", "x_sh_ExitStatus_Sh", "x_sh_CmdRan_Sh", "x_sh_ExitStatus_ExitChain", "x_sh_CmdRan_ExitChain"],
+        "agree": """Theorem x_sh_ExitStatus_spec : forall e, x_ExitStatus e = sh_ExitStatus_spec e.
+Proof. intros [|c|x [s|]|]; reflexivity. Qed.
+Theorem x_sh_CmdRan_spec : forall e, x_CmdRan e = sh_CmdRan_spec e.
+Proof. intros [|c|x [s|]|]; reflexivity. Qed.
+Theorem x_sh_ExitStatus_Sh : forall e, x_ExitStatus (of_sh e) = Sh.sh_ExitStatus e.
+Proof. intros [|w|c|]; try destruct w; reflexivity. Qed.
+Theorem x_sh_CmdRan_Sh : forall e, x_CmdRan (of_sh e) = Sh.sh_CmdRan e.
+Proof. intros [|w|c|]; try destruct w; reflexivity. Qed.
+Theorem x_sh_ExitStatus_ExitChain : forall c, x_ExitStatus (of_child c) = ExitChain.sh_ExitStatus c.
+Proof. intros c. rewrite x_sh_ExitStatus_spec. unfold of_child, ExitChain.sh_ExitStatus. destruct (ExitChain.run_err_nil c); destruct c; reflexivity. Qed.
+Theorem x_sh_CmdRan_ExitChain : forall c, x_CmdRan (of_child c) = ExitChain.sh_CmdRan c.
+Proof. intros c. rewrite x_sh_CmdRan_spec. unfold of_child, ExitChain.sh_CmdRan. destruct (ExitChain.run_err_nil c); destruct c; reflexivity. Qed.
+""",
+        "search": _DYN_GRID + """Definition D1 := diffs Z.eqb (fun e => [["ExitStatus"]; show_dyn e]) (fun z => [show_Z z]) x_ExitStatus sh_ExitStatus_spec grid.
+Definition D2 := diffs Bool.eqb (fun e => [["CmdRan"]; show_dyn e]) show_bool x_CmdRan sh_CmdRan_spec grid.
+Definition D := Eval vm_compute in firstn 3 (D1 ++ D2)%list.
+""",
+        "args": ["op", "err"], "replay": None},
+    "mg.ExitStatus": {
+        "checks": ["C05", "C15"],
+        "file": "mg/errors.go", "names": "ExitStatus!dyn", "src": ["ExitStatus"],
+        "model": "Model/ExitChain.mg_ExitStatus (C05) and Model/Sh.mg_ExitStatus (C15); errors as classes of dynamic types (Base/GoLib.dynerr)",
+        "requires": "From Mage Require Model.Sh Model.ExitChain.\n",
+        "defs": """Definition of_value (v : ExitChain.value) : dynerr :=
+  match v with ExitChain.VNil => DNil | ExitChain.VFatal c => DExitStatus c | ExitChain.VPlain => DOther | ExitChain.VOther => DOther end.
+Definition of_sh (e : Sh.err) : dynerr :=
+  match e with
+  | Sh.ENil => DNil
+  | Sh.EExitError w => DExitError (Sh.ws_exited w) (Some (Sh.ws_exitstatus w))
+  | Sh.EFatal c => DExitStatus c
+  | Sh.EOther => DOther
+  end.
+Definition mg_ExitStatus_spec (e : dynerr) : Z := match e with DNil => 0 | DExitStatus c => c | _ => 1 end%Z.
+""",
+        "theorems": ["x_mg_ExitStatus_spec", "x_mg_ExitStatus_ExitChain", "x_mg_ExitStatus_Sh"],
+        "agree": """Theorem x_mg_ExitStatus_spec : forall e, x_ExitStatus e = mg_ExitStatus_spec e.
+Proof. intros [|c|x [s|]|]; reflexivity. Qed.
+Theorem x_mg_ExitStatus_ExitChain : forall v, x_ExitStatus (of_value v) = ExitChain.mg_ExitStatus v.
+Proof. intros [| |c|]; reflexivity. Qed.
+Theorem x_mg_ExitStatus_Sh : forall e, x_ExitStatus (of_sh e) = Sh.mg_ExitStatus e.
+Proof. intros [|w|c|]; try destruct w; reflexivity. Qed.
+""",
+        "search": _DYN_GRID + """Definition D := Eval vm_compute in firstn 3 (diffs Z.eqb (fun e => [["ExitStatus"]; show_dyn e]) (fun z => [show_Z z]) x_ExitStatus mg_ExitStatus_spec grid).
+""",
+        "args": ["op", "err"], "replay": None},
+
+    "sanitizeSynopsis": {
+        "checks": ["C06"],
+        "file": "parse/parse.go", "names": "sanitizeSynopsis!%doc.Func=Doc:Name!?doc.Synopsis=string>string", "src": ["sanitizeSynopsis"],
+        "model": "Model/Classify.sanitizeSynopsis (C06; go/doc's Synopsis is a parameter; strings.EqualFold read as the ASCII fold Classify.equal_fold)",
+        "requires": "From Mage Require Import Proof.GoLib_models.\nFrom Mage Require Model.Classify.\n", "defs": "",
+        "theorems": ["x_sanitizeSynopsis_Classify"],
+        "agree": """Theorem x_sanitizeSynopsis_Classify : forall synopsis f,
+  x_sanitizeSynopsis synopsis f = Classify.sanitizeSynopsis (x_doc_Func_Name f) (synopsis (x_doc_Func_Doc f)).
+Proof.
+  intros synopsis f. unfold x_sanitizeSynopsis, Classify.sanitizeSynopsis. cbv zeta.
+  change " "%string with (String " "%char EmptyString) at 1. rewrite ?strings_Split_char, ?split_char_Classify.
+  destruct (Classify.split_on " " (synopsis (x_doc_Func_Doc f))) as [|w rest] eqn:E.
+  - exfalso. rewrite <- split_char_Classify in E. exact (split_char_nonempty _ _ E).
+  - rewrite ?index_0. change (Z.to_nat 1) with 1%nat. cbn [skipn]. rewrite ?EqualFold_Classify, ?strings_Join_Classify.
+    go_cases; reflexivity.
+Qed.
+""",
+        "search": """Definition grid := pairs ["Clean"; "clean"; "Build"; ""] ["Clean removes files"; "clean up"; "CLEAN"; "Cleans all"; ""; " Clean x"; "Build  twice  spaced"; "x"].
+Definition D := Eval vm_compute in firstn 3 (diffs String.eqb (fun x => [[fst x]; [snd x]]) show_str
+  (fun x => x_sanitizeSynopsis (fun d => d) (x_doc_Func_mk [snd x; fst x])) (fun x => Classify.sanitizeSynopsis (fst x) (snd x)) grid).
+""",
+        "args": ["f.Name", "doc.Synopsis(f.Doc)"], "replay": None},
 }
 
 
@@ -579,7 +754,7 @@ def _fn_input(it, translated, args):
             out["%s#%d" % (name, k)] = dict(zip(_fn_fields(translated, name), val))
         elif name in ("i", "j"):
             out[name] = int(val[0])
-        elif name in ("op", "prefix", "name", "goos", "goarch", "s"):
+        elif name in ("op", "prefix", "name", "goos", "goarch", "s", "goCmd", "runtime.GOOS", "f.Name", "doc.Synopsis(f.Doc)"):
             out[name] = val[0]
         else:
             out[name] = val
@@ -612,6 +787,11 @@ def _fn_replay(ctx, it, inp):
 
 
 def fn_tie(ctx, names):
+    """names: a list of FN_ITEMS keys, or a property id ("C08"); the items whose "checks" name ctx.pid are added either way"""
+    names = [] if isinstance(names, str) else list(names)
+    names += [n for n, it in FN_ITEMS.items() if ctx.pid in it.get("checks", ()) and n not in names]
+    if not names:
+        return
     t0 = time.time()
     try:
         _fn_tie(ctx, names)
